@@ -125,7 +125,7 @@ def Lexer.nextToken (L : Lexer) (F : Facts) (subset : List Nat) (n : Nat) : Nat 
     if pos < n then
       let sorted := L.sorted subset
       match firstMatch F.mt pos (L.scanList sorted) with
-      | none => .error (.chars pos ((L.scanList sorted).filter (fun t => !L.ignore.contains t)))
+      | none => .error (.chars pos (sorted.filter (fun t => !L.ignore.contains t)))      -- every terminal of this lexer, embedded keywords included (finding F35, fixed)
       | some (t, len) =>
         let ty := L.retype F sorted t pos len
         if L.ignore.contains ty then L.nextToken F subset n fuel (pos + max len 1)
